@@ -62,6 +62,11 @@ def binop(it, op, a, b, node=None):
             if p.must(tb > 0):
                 return ta / tb if isinstance(op, ast.FloorDiv) else ta % tb
             raise Unsupported('division by possibly negative symbolic divisor')
+        if isinstance(op, ast.BitAnd):
+            # x & (2^k - 1) == x mod 2^k for every Python int x (two's complement semantics)
+            for x, m in ((a, b), (b, a)):
+                if isinstance(m, int) and not isinstance(m, bool) and m >= 0 and (m & (m + 1)) == 0:
+                    return int_term(x) % (m + 1)
         raise Unsupported('symbolic int operator %s' % op.__class__.__name__)
     # ---- bytes
     if is_byteslike(a) and is_byteslike(b):
